@@ -61,7 +61,132 @@ pub proof fn lemma_chunk_coverage(s: Seq<u8>, i: int)
 {
 }
 
-// A-CRC-HD (assumed, literature): for equal-length messages m != m' the codewords (m, !crc(m)) and (m', !crc(m'))
-// differ in at least 4 bit positions and not by a single burst of <= 32 bits.  Stated over a bit-distance function.
-pub uninterp spec fn bit_distance(a: Seq<u8>, b: Seq<u8>) -> nat;       // Hamming distance in bits of equal-length byte strings
-pub uninterp spec fn burst_span(a: Seq<u8>, b: Seq<u8>) -> nat;         // length in bits of the shortest window containing all differing bits
+// ---- flip rejection (C03): changing 1..3 bits, or any burst of <= 32 contiguous bits, of an accepted chunk yields a rejection.
+// Derived from chunk_ok (the contract of Chunk::try_from) and ONE assumed fact about the CRC-32C code, A-CRC-HD.
+pub open spec fn bit_at(s: Seq<u8>, i: int) -> bool { (s[i / 8] >> ((i % 8) as u8)) & 1 == 1 }      // memory order, LSB first
+pub open spec fn differs_at(a: Seq<u8>, b: Seq<u8>, i: int) -> bool { 0 <= i < 8 * a.len() && bit_at(a, i) != bit_at(b, i) }
+pub open spec fn ge4_diff(a: Seq<u8>, b: Seq<u8>) -> bool {
+    exists|i: int, j: int, k: int, l: int| i < j < k < l && #[trigger] differs_at(a, b, i) && #[trigger] differs_at(a, b, j) && #[trigger] differs_at(a, b, k) && #[trigger] differs_at(a, b, l)
+}
+pub open spec fn burst_at(a: Seq<u8>, b: Seq<u8>, p: int) -> bool { forall|i: int| #[trigger] differs_at(a, b, i) ==> p <= i < p + 32 }
+pub open spec fn within_burst32(a: Seq<u8>, b: Seq<u8>) -> bool { exists|p: int| #[trigger] burst_at(a, b, p) }
+// message followed by its stored check word (inverted CRC-32C, little endian), as laid out in a chunk
+pub open spec fn codeword(m: Seq<u8>) -> Seq<u8> { m + vstd::bytes::spec_u32_to_le_bytes(!crc(m)) }
+
+// A-CRC-HD (ASSUMED, literature: Castagnoli et al. 1993; Koopman 2002): for equal-length messages of at most 2^31-33 bits, two
+// distinct CRC-32C codewords differ in at least 4 bit positions (Hamming distance >= 4) and never by a single burst of <= 32 bits.
+#[verifier::external_body]
+pub proof fn axiom_crc32c_hd(m1: Seq<u8>, m2: Seq<u8>)
+    requires m1.len() == m2.len(), m1.len() <= 0x1000_0000, m1 != m2
+    ensures ge4_diff(codeword(m1), codeword(m2)), !within_burst32(codeword(m1), codeword(m2))
+{
+}
+
+proof fn lemma_region_is_codeword(s: Seq<u8>, a: int, b: int)
+    requires 0 <= a <= b, b + 4 <= s.len(), le32(s, b) == !crc(s.subrange(a, b))
+    ensures s.subrange(a, b + 4) == codeword(s.subrange(a, b))
+{
+    vstd::bytes::lemma_auto_spec_u32_to_from_le_bytes();
+    let w = s.subrange(b, b + 4);
+    assert(w.len() == 4);
+    assert(vstd::bytes::spec_u32_to_le_bytes(vstd::bytes::spec_u32_from_le_bytes(w)) == w);
+    assert(s.subrange(a, b + 4) =~= s.subrange(a, b) + w);
+}
+proof fn lemma_bit_shift(s: Seq<u8>, a: int, b: int, i: int)
+    requires 0 <= a <= b <= s.len(), 0 <= i < 8 * (b - a)
+    ensures bit_at(s.subrange(a, b), i) == bit_at(s, i + 8 * a)
+{
+    assert((i + 8 * a) / 8 == i / 8 + a);
+    assert((i + 8 * a) % 8 == i % 8);
+}
+// differences inside a region are differences of the whole slice, at the shifted position
+proof fn lemma_region_diff(s: Seq<u8>, t: Seq<u8>, a: int, b: int)
+    requires s.len() == t.len(), 0 <= a <= b <= s.len()
+    ensures
+        forall|i: int| #[trigger] differs_at(s.subrange(a, b), t.subrange(a, b), i) ==> differs_at(s, t, i + 8 * a),
+        forall|i: int| 8 * a <= i < 8 * b && #[trigger] differs_at(s, t, i) ==> differs_at(s.subrange(a, b), t.subrange(a, b), i - 8 * a),
+{
+    assert forall|i: int| #[trigger] differs_at(s.subrange(a, b), t.subrange(a, b), i) implies differs_at(s, t, i + 8 * a) by {
+        lemma_bit_shift(s, a, b, i);
+        lemma_bit_shift(t, a, b, i);
+    }
+    assert forall|i: int| 8 * a <= i < 8 * b && #[trigger] differs_at(s, t, i) implies differs_at(s.subrange(a, b), t.subrange(a, b), i - 8 * a) by {
+        lemma_bit_shift(s, a, b, i - 8 * a);
+        lemma_bit_shift(t, a, b, i - 8 * a);
+    }
+}
+proof fn lemma_region_contradiction(s: Seq<u8>, t: Seq<u8>, a: int, b: int)
+    requires
+        s.len() == t.len(), 0 <= a <= b, b + 4 <= s.len(), b - a <= 0x1000_0000,
+        le32(s, b) == !crc(s.subrange(a, b)), le32(t, b) == !crc(t.subrange(a, b)),
+        s.subrange(a, b + 4) != t.subrange(a, b + 4),
+        !ge4_diff(s, t) || within_burst32(s, t),
+    ensures false
+{
+    let (m1, m2) = (s.subrange(a, b), t.subrange(a, b));
+    lemma_region_is_codeword(s, a, b);
+    lemma_region_is_codeword(t, a, b);
+    if m1 == m2 { assert(false); }
+    axiom_crc32c_hd(m1, m2);
+    let (w1, w2) = (s.subrange(a, b + 4), t.subrange(a, b + 4));
+    lemma_region_diff(s, t, a, b + 4);
+    if within_burst32(s, t) {
+        let p = choose|p: int| #[trigger] burst_at(s, t, p);
+        assert forall|i: int| #[trigger] differs_at(w1, w2, i) implies p - 8 * a <= i < p - 8 * a + 32 by {
+            assert(differs_at(s, t, i + 8 * a));
+        }
+        assert(burst_at(w1, w2, p - 8 * a));
+        assert(within_burst32(w1, w2));
+    } else {
+        let (i, j, k, l) = choose|i: int, j: int, k: int, l: int| i < j < k < l && #[trigger] differs_at(w1, w2, i) && #[trigger] differs_at(w1, w2, j) && #[trigger] differs_at(w1, w2, k) && #[trigger] differs_at(w1, w2, l);
+        assert(differs_at(s, t, i + 8 * a) && differs_at(s, t, j + 8 * a) && differs_at(s, t, k + 8 * a) && differs_at(s, t, l + 8 * a));
+        assert(ge4_diff(s, t));
+    }
+}
+// The C03 claim: an accepted chunk `s` and a same-length, different slice `t` that differs from it in at most 3 bit positions,
+// or only inside a window of 32 contiguous bits, cannot both be accepted.
+pub proof fn lemma_flip_rejected(s: Seq<u8>, t: Seq<u8>)
+    requires chunk_ok(s), t.len() == s.len(), t != s, s.len() <= 0x1000_0000, !ge4_diff(s, t) || within_burst32(s, t)
+    ensures !chunk_ok(t)
+{
+    if chunk_ok(t) {
+        let n = s.len() as int;
+        if s.subrange(0, 20) != t.subrange(0, 20) {
+            lemma_region_contradiction(s, t, 0, 16);
+        } else if s.subrange(20, n) != t.subrange(20, n) {
+            lemma_region_contradiction(s, t, 20, n - 4);
+        } else {
+            assert(s =~= s.subrange(0, 20) + s.subrange(20, n));
+            assert(t =~= t.subrange(0, 20) + t.subrange(20, n));
+            assert(false);
+        }
+    }
+}
+
+// ---- re-encoding (C03): an accepted chunk re-encodes, from its decoded fields, to exactly the bytes it was decoded from
+pub open spec fn encode_chunk(c: Chunk) -> Seq<u8> { codeword(header_bytes(c)) + codeword(padded_payload(c)) }
+pub proof fn lemma_chunk_reencode(c: Chunk, s: Seq<u8>)
+    requires chunk_ok(s), chunk_fields(c, s)
+    ensures encode_chunk(c) == s
+{
+    vstd::bytes::lemma_auto_spec_u32_to_from_le_bytes();
+    vstd::bytes::lemma_auto_spec_u16_to_from_le_bytes();
+    let n = s.len() as int;
+    let l = le16(s, 14) as int;
+    assert(c.payload@.len() == l);
+    assert(vstd::bytes::spec_u32_to_le_bytes(c.device_id) == s.subrange(0, 4));
+    assert(vstd::bytes::spec_u32_to_le_bytes(c.packet_sequence) == s.subrange(4, 8));
+    assert(vstd::bytes::spec_u16_to_le_bytes(c.channel_sequence) == s.subrange(8, 10));
+    assert(vstd::bytes::spec_u16_to_le_bytes(c.chunk_id) == s.subrange(12, 14));
+    assert(vstd::bytes::spec_u16_to_le_bytes(c.payload@.len() as u16) == s.subrange(14, 16));
+    assert(header_bytes(c) =~= s.subrange(0, 16));
+    assert(pad_len(l) == n - 24 - l);
+    let pad = Seq::new(pad_len(l) as nat, |i: int| 0u8);
+    assert(pad =~= s.subrange(20 + l, n - 4)) by {
+        assert forall|i: int| 0 <= i < pad.len() implies pad[i] == s.subrange(20 + l, n - 4)[i] by {}
+    }
+    assert(padded_payload(c) =~= s.subrange(20, n - 4));
+    lemma_region_is_codeword(s, 0, 16);
+    lemma_region_is_codeword(s, 20, n - 4);
+    assert(s =~= s.subrange(0, 20) + s.subrange(20, n));
+}
